@@ -70,6 +70,7 @@ def rpy_routes(R, order, unit):
     return {"base.tr2rpy(R)": lambda: b.tr2rpy(R, **kw), "base.tr2rpy(T)": lambda: b.tr2rpy(T, **kw),
             "SO3.rpy": lambda: SO3(R, check=False).rpy(**kw), "SE3.rpy": lambda: SE3(T, check=False).rpy(**kw),
             "UnitQuaternion.rpy": lambda: UnitQuaternion(SO3(R, check=False)).rpy(**kw),
+            "UnitQuaternion(-q).rpy": lambda: UnitQuaternion(-UnitQuaternion(SO3(R, check=False)).vec).rpy(**kw),
             "SO3.rpy[2-valued]": lambda: _second(SO3([gamma.rotx(0.3), R], check=False).rpy(**kw)),
             "SE3.rpy[2-valued]": lambda: _second(SE3([b.transl(1, 2, 3), T], check=False).rpy(**kw)),
             "UnitQuaternion.rpy[2-valued]": lambda: _second(UnitQuaternion([b.r2q(gamma.rotx(0.3)), UnitQuaternion(SO3(R, check=False)).vec]).rpy(**kw))}
@@ -84,6 +85,7 @@ def eul_routes(R, flip, unit):
     return {"base.tr2eul(R)": lambda: b.tr2eul(R, **kw), "base.tr2eul(T)": lambda: b.tr2eul(T, **kw),
             "SO3.eul": lambda: SO3(R, check=False).eul(**kw), "SE3.eul": lambda: SE3(T, check=False).eul(**kw),
             "UnitQuaternion.eul": lambda: UnitQuaternion(SO3(R, check=False)).eul(unit=unit),
+            "UnitQuaternion(-q).eul": lambda: UnitQuaternion(-UnitQuaternion(SO3(R, check=False)).vec).eul(unit=unit),
             "SO3.eul[2-valued]": lambda: _second(SO3([gamma.rotx(0.3), R], check=False).eul(**kw)),
             "SE3.eul[2-valued]": lambda: _second(SE3([b.transl(1, 2, 3), T], check=False).eul(**kw))}
 
@@ -117,7 +119,7 @@ def judge_eul(j, R, feat, detail):
         k = 180 / PI if unit == "deg" else 1.0
         for flip in (False, True):
             for site, fn in eul_routes(R, flip, unit).items():
-                if flip and site == "UnitQuaternion.eul":
+                if flip and site in ("UnitQuaternion.eul", "UnitQuaternion(-q).eul"):
                     continue
                 cid = (site, flip, feat, unit)
                 ff = "%s;flip=%s;%s" % (feat, flip, unit)
@@ -142,7 +144,9 @@ def judge_angvec(j, R, feat, detail):
     T = b.r2t(R)
     routes = {"base.tr2angvec(R)": lambda u: b.tr2angvec(R, unit=u), "base.tr2angvec(T)": lambda u: b.tr2angvec(T, unit=u),
               "SO3.angvec": lambda u: SO3(R, check=False).angvec(unit=u), "SE3.angvec": lambda u: SE3(T, check=False).angvec(unit=u),
-              "UnitQuaternion.angvec": lambda u: UnitQuaternion(SO3(R, check=False)).angvec(unit=u)}
+              "UnitQuaternion.angvec": lambda u: UnitQuaternion(SO3(R, check=False)).angvec(unit=u),
+              # the same rotation held as the OTHER quaternion of the double cover (negative scalar part)
+              "UnitQuaternion(-q).angvec": lambda u: UnitQuaternion(-UnitQuaternion(SO3(R, check=False)).vec).angvec(unit=u)}
     for unit in ("rad", "deg"):
         k = 180 / PI if unit == "deg" else 1.0
         for site, fn in routes.items():
